@@ -37,6 +37,8 @@ pub struct Case {
     pub exchanges: Vec<(u64, usize, usize, bool)>,
     /// purge calls (time, replica)
     pub purges: Vec<(u64, usize)>,
+    /// the stores perform their k-th write `pattern[k % len]` simulated ms after being asked (empty = at once)
+    pub write_delay: Vec<u64>,
 }
 
 pub struct Cluster;
@@ -90,7 +92,8 @@ impl Prop for Cluster {
         for _ in 0..src.below(3) {
             purges.push((horizon + 1 + src.below64(100), src.below(n)));
         }
-        Case { n, skew_s, ops, exchanges, purges }
+        let write_delay = crate::c02::gen_write_delay(src);
+        Case { n, skew_s, ops, exchanges, purges, write_delay }
     }
 
     fn run(&self, case: &Case) -> Outcome {
@@ -107,6 +110,7 @@ impl Prop for Cluster {
             })).collect::<Vec<_>>(),
             "extra_exchanges(at_s, receiver, peer, removals_first)": case.exchanges,
             "purges(at_s, replica)": case.purges,
+            "store_write_delay_ms_per_call": case.write_delay,
         })
     }
 
@@ -116,7 +120,7 @@ impl Prop for Cluster {
          direct message (source 0) or through a real repair exchange with its origin (get state -> diff -> removal half and \
          fetched modification half on the read-repair source, halves in generated order), so delay + skew stays below the \
          forgiveness period by construction; extra exchanges between arbitrary pairs and purge calls on arbitrary replicas \
-         at arbitrary moments; the timeline ends with two complete rounds of pairwise exchanges. The SAME timeline is run \
+         at arbitrary moments; in two cases out of five the stores perform their writes 0-7 simulated ms after being asked, varying from call to call; the timeline ends with two complete rounds of pairwise exchanges. The SAME timeline is run \
          twice, with and without the purge calls; oracle: on every replica the documents storage returns (ids, stamps, \
          bytes) are identical in both runs and equal the LWW model; non-trivial = the purging run removed >=1 tombstone"
     }
@@ -217,6 +221,7 @@ async fn play(case: &Case, with_purges: bool) -> (Vec<Docs>, usize) {
     let stores: Vec<ModelStore> = (0..case.n).map(|_| ModelStore::default()).collect();
     let mut groups = vec![];
     for (i, s) in stores.iter().enumerate() {
+        s.inner.lock().write_delay_pattern = case.write_delay.clone();
         groups.push(e2::new_group(s.clone(), i as u8 + 1).await);
     }
     let mut purged = 0usize;
@@ -242,6 +247,8 @@ async fn play(case: &Case, with_purges: bool) -> (Vec<Docs>, usize) {
             },
         }
     }
+    // whatever a node still does in the background lands before the documents are read
+    tokio::time::sleep(std::time::Duration::from_millis(100)).await;
     let docs = stores
         .iter()
         .map(|s| s.docs(KS).into_iter().map(|(id, (ts, b))| (id, (Stamp::of(ts), b))).collect())
